@@ -151,10 +151,10 @@ fn parse_case(out: &mut Out, bytes: &[u8], sides: usize, len: usize) -> Option<V
     got.ok().flatten()
 }
 
-fn one(out: &mut Out, r: &mut Rng, files: &[BString], sides: usize) {
+fn one(out: &mut Out, r: &mut Rng, files: &[BString], sides: usize, level: Option<FileMergeHunkLevel>) {
     let m = Merge::from_vec(files.to_vec());
     let opts = MergeOptions {
-        hunk_level: if r.chance(1, 3) { FileMergeHunkLevel::Word } else { FileMergeHunkLevel::Line },
+        hunk_level: level.unwrap_or(if r.chance(1, 3) { FileMergeHunkLevel::Word } else { FileMergeHunkLevel::Line }),
         same_change: if r.chance(1, 2) { SameChange::Keep } else { SameChange::Accept },
     };
     let chosen = conflicts::choose_materialized_conflict_marker_len(&m);
@@ -178,6 +178,30 @@ fn one(out: &mut Out, r: &mut Rng, files: &[BString], sides: usize) {
     if look { out.tally("feature", "marker-lookalike"); }
     if chosen > MIN_CONFLICT_MARKER_LEN { out.tally("feature", "escalated-marker-len"); }
     let table = diff_table(&hunks);
+    // hypotheses of the Lean round-trip theorem, evaluated by the model on the real merge_hunks
+    // output (HunksWF at the chosen length, LinesFrom) and on the real line diffs (DiffOK)
+    // (line-level merging only: a word-level merge can synthesize lines that are in no input, see notes/C05.md)
+    if opts.hunk_level == FileMergeHunkLevel::Line {
+        out.case(&format!("wf {sides} {} {}", show_terms(files), show_hunks(&hunks)), "1");
+    }
+    out.tally("hunk_level", if opts.hunk_level == FileMergeHunkLevel::Line { "line" } else { "word" });
+    // a resolved hunk containing a marker line of the parse length that is not a line of any input
+    // (only word-level merging can produce one)
+    let input_lines: std::collections::HashSet<&[u8]> = files.iter().flat_map(|f| f.split_inclusive(|b| *b == b'\n')).collect();
+    let synthesized_marker = |len: usize| hunks.iter().filter(|h| h.is_resolved()).any(|h| h.first().split_inclusive(|b| *b == b'\n').any(|l| {
+        !input_lines.contains(l) && b"<>+-%\\|=".contains(&l[0]) && {
+            let run = l.iter().take_while(|b| **b == l[0]).count();
+            run >= len && l.get(run).is_none_or(|b| b.is_ascii_whitespace())
+        }
+    }));
+    if table != "-" {
+        for e in table.split(';') {
+            let mut it = e.split(',');
+            let (l, rr) = (it.next().unwrap(), it.next().unwrap());
+            let ends = |h: &str| h == "-" || h.ends_with("0a");
+            if ends(l) && ends(rr) && r.chance(1, 3) { out.case(&format!("diffok {e}"), "1"); }
+        }
+    }
     for (style, sname) in STYLES {
         let labels = gen_labels(r, files.len());
         let (ml, len) = match r.below(10) {
@@ -201,7 +225,10 @@ fn one(out: &mut Out, r: &mut Rng, files: &[BString], sides: usize) {
             // the property: same arity, the marker length jj chose (or a longer one)
             if parsed.as_ref() == Some(&hunks) { out.oracle_ok(); } else {
                 let kind = if parsed.is_none() { "none" } else { "mismatch" };
-                out.oracle_fail(&format!("roundtrip:{sname}:{kind}"), format!(
+                let sig = if opts.hunk_level == FileMergeHunkLevel::Word && synthesized_marker(len) {
+                    "roundtrip:word-merge-synthesized-marker-in-resolved-hunk".to_string()
+                } else { format!("roundtrip:{sname}:{kind}") };
+                out.oracle_fail(&sig, format!(
                     "files={files:?} opts={opts:?} style={sname} len={len} labels={labels:?}\n text={:?}\n merge_hunks={hunks:?}\n parsed={parsed:?}", bytes));
             }
         } else {
@@ -232,17 +259,29 @@ const SOUP: &[&[u8]] = &[
 pub fn run(cfg: &Cfg, out: &mut Out) {
     let mut r = cfg.rng(5);
     // sizes small → large
-    let per = cfg.n(450, 20_000);
+    let per = cfg.n(3000, 40_000);
     for size in 1..=5usize {
         for _ in 0..per {
             let sides = match r.below(6) { 0..=2 => 2, 3 | 4 => 3, _ => 4 };
             let files = gen_files(&mut r, sides, size);
-            one(out, &mut r, &files, sides);
+            one(out, &mut r, &files, sides, None);
         }
+    }
+    // crafted: word-level merging of two sides that each delete one separator byte synthesizes
+    // marker lines (length 9) that are in no input, so the chosen marker length (7) does not cover them
+    {
+        let base = b"<<<<x<<<<<y\na\n||||x|||||y\nb\n====x=====y\nc\n>>>>x>>>>>y\nsep\nq\n".to_vec();
+        let side1: Vec<u8> = base.iter().copied().filter(|b| *b != b'x').collect::<Vec<u8>>().iter().flat_map(|b| if *b == b'q' { b"q1".to_vec() } else { vec![*b] }).collect();
+        let side2: Vec<u8> = base.iter().copied().filter(|b| *b != b'y').collect::<Vec<u8>>().iter().flat_map(|b| if *b == b'q' { b"q2".to_vec() } else { vec![*b] }).collect();
+        let files = vec![BString::from(side1), BString::from(base), BString::from(side2)];
+        let mut r = cfg.rng(56);
+        one(out, &mut r, &files, 2, Some(FileMergeHunkLevel::Word));
+        one(out, &mut r, &files, 2, Some(FileMergeHunkLevel::Line));
+        out.tally("stream", "crafted-word-merge");
     }
     // marker soup: correspondence of the parsers on arbitrary marker sequences
     let mut r = cfg.rng(55);
-    for _ in 0..cfg.n(1500, 60_000) {
+    for _ in 0..cfg.n(10_000, 200_000) {
         let n = r.range(1, 9);
         let mut v = vec![];
         for _ in 0..n { let s: &[u8] = SOUP[r.below(SOUP.len())]; v.extend_from_slice(s); }
